@@ -310,3 +310,40 @@ func TestD12_ReverseZeroGraph(t *testing.T) {
 		t.Fatalf("vertex added through the reversed view is not visible in the original")
 	}
 }
+
+// D13 (C06): Redefine panics (reflect.StructOf: duplicate field) when the
+// inputs it discovers include one name under two different types.
+func TestD13_RedefineDuplicateName(t *testing.T) {
+	target := argmapper.MustFunc(argmapper.NewFunc(func(in struct {
+		argmapper.Struct
+		B T0
+		X T1 `argmapper:",typeOnly"`
+	}) int {
+		return in.B.K + in.X.K
+	}))
+	conv := func(in struct {
+		argmapper.Struct
+		B T2
+	}) T1 {
+		return T1{K: in.B.K}
+	}
+	var rf *argmapper.Func
+	var err error
+	func() {
+		defer func() {
+			if p := recover(); p != nil {
+				t.Fatalf("Redefine panicked: %v", p)
+			}
+		}()
+		rf, err = target.Redefine(argmapper.Converter(conv), quiet(),
+			argmapper.FilterInput(argmapper.FilterOr(
+				argmapper.FilterType(reflect.TypeOf(T0{})),
+				argmapper.FilterType(reflect.TypeOf(T2{})))))
+	}()
+	if err == nil {
+		// If it succeeds, the function must be callable with its declared inputs.
+		if rf == nil {
+			t.Fatalf("nil func and nil error")
+		}
+	}
+}
